@@ -24,7 +24,7 @@ FLIP = {"and": "nand", "nand": "and", "or": "nor", "nor": "or", "xor": "xnor", "
 
 def gen_wide(rng):
     """Wide interfaces: 16..40 compared endpoints; every single-endpoint mutant of the circuit is mitered against it."""
-    n = rng.choice([16, 17, 17, 18, 32, 33, 33, 34, rng.randint(17, 40)])
+    n = rng.choice([16, 17, 17, 18, 32, 33, 33, 34, rng.randint(17, 40), 65, 70, 129])
     c0 = G.rand_circuit(rng, rng.randint(3, 5), n + rng.randint(0, 4), max_fanin=3, name="ca", p_const=0.1, n_outputs=n, p_large=0, p_input_output=0.0, p_const_output=0.0)
     return {"c0": c0, "c1": None, "pair": "wide_each", "startpoints": None, "endpoints": None, "as_set": rng.random() < 0.5, "repeat": False}
 
